@@ -677,13 +677,17 @@ write_struct_info (const gchar  *namespace,
   if (is_gtype_struct)
     xml_printf (file, " glib:is-gtype-struct=\"1\"");
 
-  func = g_struct_info_get_copy_function (info);
-  if (func)
-    xml_printf (file, " copy-function=\"%s\"", func);
+  /* The copy/free function accessors only accept struct infos */
+  if (g_base_info_get_type ((GIBaseInfo *)info) == GI_INFO_TYPE_STRUCT)
+    {
+      func = g_struct_info_get_copy_function (info);
+      if (func)
+        xml_printf (file, " copy-function=\"%s\"", func);
 
-  func = g_struct_info_get_free_function (info);
-  if (func)
-    xml_printf (file, " free-function=\"%s\"", func);
+      func = g_struct_info_get_free_function (info);
+      if (func)
+        xml_printf (file, " free-function=\"%s\"", func);
+    }
 
   write_attributes (file, (GIBaseInfo*) info);
 
